@@ -49,18 +49,18 @@ theorem genRanges_arith (start end_ batch : Int) (c : Bool)
     rw [w _ (by omega) (by omega)]
   · simp [Gen.genRangesAdvance]
 
-/- FULL: in continuous mode, whenever nothing is left to hand out (`end ≤ start`, which includes a start index
-   beyond the current tree), `genRanges` polls for a bigger STH instead of computing a batch:
-     theorem genRanges_polls_at_end (start end_ : Int) (h : end_ ≤ start) : Gen.genRangesAtEnd start end_ = true
-   This is what the model's `grow` guard (`end ≤ cursor`) says and what the property needs ("nothing outside
-   [start, end) is delivered"). On the unchanged tree the regenerated condition is `start == end`, so the statement
-   is false for `end < start`: the code then computes the batch `[start, end-1]` (empty), moves its cursor *back* to
-   `end`, and later delivers the indices `end … start-1`, which lie outside the requested range — finding C16-1
-   (known_findings.d/C16.json, fixes/C16-1.diff, reproduced by the harness scenarios `b9` / `sb*`). With the fix applied
-   the regenerated condition is `start >= end` and the full statement is provable by `simp [Gen.genRangesAtEnd]`.
-   Proved here: the case the unchanged code handles. -/
-theorem genRanges_polls_at_end_partial (start : Int) : Gen.genRangesAtEnd start start = true := by
-  simp [Gen.genRangesAtEnd]
+/-- In continuous mode, whenever nothing is left to hand out (`end ≤ start`, which includes a start index beyond the
+current tree), `genRanges` polls for a bigger STH and goes back to the loop test without computing a batch; together with
+`genRanges_arith` (batches are only computed when `start < end`, and begin at `start`) this is the guard of the model's
+`grow` (`end ≤ cursor`) and the reason nothing below `StartIndex` is ever handed out.
+(Before fix 8e7cedf the regenerated condition was `start == end` and the body did not `continue`: for `end < start` the
+code computed the empty batch `[start, end-1]`, moved its cursor back to `end` and later delivered `end … start-1`;
+this theorem does not hold for that code, and the harness scenarios `b9` / `sb*` exhibit the delivered indices.) -/
+theorem genRanges_polls_at_end (start end_ : Int) (h : end_ ≤ start) :
+    Gen.genRangesAtEnd start end_ = true ∧ Gen.genRangesAtEndContinues = true := by
+  constructor
+  · simp [Gen.genRangesAtEnd]; omega
+  · decide
 
 /-- the same statement in the vocabulary of the model state -/
 theorem hand_matches_code (s : St) (hc : s.cursor < s.end_) (hb : 0 < s.batch)
@@ -337,7 +337,7 @@ theorem empty_answers_livelock (n : Nat) :
 the generator hands out empty ranges for ever (in the model: `hand` is never enabled, nothing else can progress). -/
 example : Gen.genRangesNext 5 (Gen.genRangesBatchEnd 5 9 0) = (5, 4) ∧ Gen.genRangesAdvance (Gen.genRangesBatchEnd 5 9 0) = 5 := by decide
 
-example : Gen.genRangesAtEnd 6 6 = true := by decide
+example : Gen.genRangesAtEnd 6 6 = true ∧ Gen.genRangesAtEnd 8 6 = true ∧ Gen.genRangesAtEnd 5 6 = false := by decide
 /-- start beyond the end of the tree, in the model: nothing is handed out until the log has grown past the start, and then
 only indices from the start on are delivered -/
 example : (run exEnv (init 8 5 2 1 1 true) [.hand 0, .grow 6, .hand 0, .grow 9, .hand 0, .resp 0 1]).delivered.map Prod.fst = [8] := by decide
